@@ -1709,6 +1709,13 @@ where
         self.keep = true;
     }
 
+    /// Re-stamp the instant this report counts from (the subscription's next
+    /// `reported_at`): call right before the first message goes out, i.e. after a
+    /// secure session to the subscriber has been (re-)established, which can take seconds.
+    pub fn stamp(&mut self, now: Instant) {
+        self.next_reported_at = now;
+    }
+
     /// Keep the subscription after a round that turned out to have nothing to report
     /// and therefore sent nothing: the watermarks advance (nothing the subscription is
     /// interested in happened up to them), but the last-report timestamp does NOT - the
